@@ -1,6 +1,7 @@
-//! bounded(one chunk of the repository's immutable-DB fixture; every secondary-index entry's block offset replaced by each of
-//! {0, offset-1, offset+1, chunk_len-1, chunk_len, chunk_len+1, 2^63, u64::MAX}; the chunk, secondary and primary files
-//! truncated at {0, 1, 55, 57, half, len-1}): reading all blocks (and continuing after errors) never panics.
+//! bounded(the three chunks of the repository's immutable-DB fixture; every secondary-index entry of the smallest and 11 entries of the larger
+//! ones with the block offset replaced by each of {0, 16, previous-1, previous, offset with a byte cleared, offset-1, offset+1, chunk_len-1,
+//! chunk_len, chunk_len+1, 2^40, 2^62, 2^63, u64::MAX} — each read in a child process so that an abort on allocation is seen; the chunk,
+//! secondary and primary files truncated at {0, 1, 55, 57, half, len-1}): reading all blocks (and continuing after errors) never panics or aborts.
 //! Exit 1 and print the first panicking corruption if not. Scratch copies live under the directory given as argument.
 use pallas_hardano::storage::immutable::chunk;
 use std::{fs, panic::{catch_unwind, AssertUnwindSafe}, path::{Path, PathBuf}};
@@ -19,48 +20,67 @@ fn drain(dir: &Path, name: &str) -> Result<(usize, usize), String> {
     })).map_err(|p| p.downcast_ref::<String>().cloned().or_else(|| p.downcast_ref::<&str>().map(|s| s.to_string())).unwrap_or_else(|| "<panic>".into()))
 }
 
+/// the same in a child process: an ABORT of the reader (allocation failure on a size taken from the index) must not kill the checker
+fn drain_guarded(dir: &Path, name: &str) -> Result<(usize, usize), String> {
+    let out = std::process::Command::new(std::env::current_exe().unwrap()).arg("--child").arg(dir).arg(name).output().map_err(|e| format!("cannot start child: {e}"))?;
+    if out.status.success() { return Ok((0, 0)); }
+    let so = String::from_utf8_lossy(&out.stdout).to_string();
+    Err(if let Some(m) = so.lines().find_map(|l| l.strip_prefix("PANIC: ")) { m.to_string() } else { format!("process ended with {} ({})", out.status, String::from_utf8_lossy(&out.stderr).lines().last().unwrap_or("").trim()) })
+}
+
 fn main() {
     std::panic::set_hook(Box::new(|_| {}));
+    if std::env::args().nth(1).as_deref() == Some("--child") {
+        let dir = PathBuf::from(std::env::args().nth(2).unwrap()); let name = std::env::args().nth(3).unwrap();
+        match drain(&dir, &name) { Ok(_) => std::process::exit(0), Err(m) => { println!("PANIC: {m}"); std::process::exit(3) } }
+    }
     let scratch: PathBuf = std::env::args().nth(1).map(PathBuf::from).unwrap_or_else(|| std::env::temp_dir().join(format!("verif_c43_{}", std::process::id())));
     let _ = fs::remove_dir_all(&scratch);
     fs::create_dir_all(&scratch).unwrap();
-    // the smallest chunk of the fixture
     let mut chunks: Vec<(u64, String)> = fs::read_dir(SRC).unwrap().filter_map(|e| e.ok()).filter_map(|e| {
         let n = e.file_name().to_string_lossy().to_string();
         n.strip_suffix(".chunk").map(|s| (e.metadata().map(|m| m.len()).unwrap_or(u64::MAX), s.to_string()))
     }).collect();
     chunks.sort();
-    let name = chunks.first().expect("no chunk fixture").1.clone();
-    let file = |ext: &str| scratch.join(format!("{name}.{ext}"));
-    let restore = || { for ext in ["chunk", "primary", "secondary"] { fs::copy(Path::new(SRC).join(format!("{name}.{ext}")), file(ext)).unwrap(); } };
-    restore();
-    let chunk_len = fs::metadata(file("chunk")).unwrap().len();
-    let sec = fs::read(file("secondary")).unwrap();
-    let entries = sec.len() / ENTRY;
+    if chunks.is_empty() { eprintln!("no chunk fixture"); std::process::exit(2) }
     let mut n = 0u64;
-    let fail = |what: String, msg: String| -> ! { println!("VIOLATED: {what}: reader panicked: {msg}"); let _ = fs::remove_dir_all(&scratch); std::process::exit(1) };
-    match drain(&scratch, &name) { Ok((ok, _)) if ok > 0 => {}, other => { eprintln!("intact copy does not read: {other:?}"); std::process::exit(2) } }
-    for i in 0..entries {
-        let at = i * ENTRY;
-        let off = u64::from_be_bytes(sec[at..at + 8].try_into().unwrap());
-        for v in [0, off.wrapping_sub(1), off.wrapping_add(1), chunk_len.wrapping_sub(1), chunk_len, chunk_len + 1, 1u64 << 63, u64::MAX] {
-            let mut d = sec.clone();
-            d[at..at + 8].copy_from_slice(&v.to_be_bytes());
-            fs::write(file("secondary"), &d).unwrap();
-            n += 1;
-            if let Err(m) = drain(&scratch, &name) { fail(format!("chunk {name}: block offset of secondary entry {i} of {entries} set to {v} (chunk file has {chunk_len} bytes)"), m) }
-        }
-    }
-    restore();
-    for ext in ["chunk", "secondary", "primary"] {
-        let data = fs::read(file(ext)).unwrap();
-        for cut in [0usize, 1, 55, 57, data.len() / 2, data.len().saturating_sub(1)] {
-            if cut > data.len() { continue }
-            fs::write(file(ext), &data[..cut]).unwrap();
-            n += 1;
-            if let Err(m) = drain(&scratch, &name) { fail(format!("chunk {name}: .{ext} file truncated to {cut} of {} bytes", data.len()), m) }
+    for (ci, (_, name)) in chunks.iter().enumerate() {
+        let name = name.clone();
+        let file = |ext: &str| scratch.join(format!("{name}.{ext}"));
+        let restore = || { for ext in ["chunk", "primary", "secondary"] { fs::copy(Path::new(SRC).join(format!("{name}.{ext}")), file(ext)).unwrap(); } };
+        restore();
+        let chunk_len = fs::metadata(file("chunk")).unwrap().len();
+        let sec = fs::read(file("secondary")).unwrap();
+        let entries = sec.len() / ENTRY;
+        let fail = |what: String, msg: String| -> ! { println!("VIOLATED: {what}: reader panicked: {msg}"); let _ = fs::remove_dir_all(&scratch); std::process::exit(1) };
+        match drain(&scratch, &name) { Ok((ok, _)) if ok > 0 => {}, other => { eprintln!("intact copy does not read: {other:?}"); std::process::exit(2) } }
+        // every entry of the smallest chunk; the first 8, the middle one and the last 2 of the larger ones
+        let picked: Vec<usize> = if ci == 0 { (0..entries).collect() } else { (0..entries).filter(|i| *i < 8 || *i == entries / 2 || *i + 2 >= entries).collect() };
+        for i in picked {
+            let at = i * ENTRY;
+            let off = u64::from_be_bytes(sec[at..at + 8].try_into().unwrap());
+            let prev = if i > 0 { u64::from_be_bytes(sec[at - ENTRY..at - ENTRY + 8].try_into().unwrap()) } else { 0 };
+            // backward offsets (before the previous block), neighbours, the chunk's end, sizes no allocation can serve, the extremes
+            for v in [0, 0x10, prev.saturating_sub(1), prev, off & !0xff00, off.wrapping_sub(1), off.wrapping_add(1), chunk_len.wrapping_sub(1), chunk_len, chunk_len + 1, 1u64 << 40, 1u64 << 62, 1u64 << 63, u64::MAX] {
+                let mut d = sec.clone();
+                d[at..at + 8].copy_from_slice(&v.to_be_bytes());
+                fs::write(file("secondary"), &d).unwrap();
+                n += 1;
+                if let Err(m) = drain_guarded(&scratch, &name) { fail(format!("chunk {name}: block offset of secondary entry {i} of {entries} set to {v} (chunk file has {chunk_len} bytes)"), m) }
+            }
         }
         restore();
+        for ext in ["chunk", "secondary", "primary"] {
+            let data = fs::read(file(ext)).unwrap();
+            for cut in [0usize, 1, 55, 57, data.len() / 2, data.len().saturating_sub(1)] {
+                if cut > data.len() { continue }
+                fs::write(file(ext), &data[..cut]).unwrap();
+                n += 1;
+                if let Err(m) = drain(&scratch, &name) { fail(format!("chunk {name}: .{ext} file truncated to {cut} of {} bytes", data.len()), m) }
+            }
+            restore();
+        }
+        for ext in ["chunk", "primary", "secondary"] { let _ = fs::remove_file(file(ext)); }
     }
     let _ = fs::remove_dir_all(&scratch);
     println!("checked {n} corrupted databases: errors or fewer blocks, never a panic");
